@@ -2,8 +2,9 @@
 The executable validity check (FuraxModel/Valid.lean) DECIDES the hypotheses of the closed theorems.
 
 * `leafOKb_iff c p : leafOKb c p = true ↔ listLeafOK c p` — one lemma per leaf class (`toeplitz_iff`, `moveAxis_iff`,
-  `reshape_iff`, `index_iff`, `pack_iff`, `stokes_iff`, `diagonal_iff`): soundness AND completeness, every clause of
-  `listLeafOK` is decidable from the encoded data;
+  `reshape_iff`, `index_iff`, `pack_iff`, `stokes_iff`, `diagonal_iff`, `dense_iff`): soundness AND completeness, every
+  clause of `listLeafOK` is decidable from the encoded data (for the dense einsum leaves with a shared block array:
+  `ListSem.denseCheck_iff`, FuraxProofs/Sem/DenseLeaf.lean — the witnesses of `LeafFits` are determined by the shapes);
 * `validWith_iff` — for every decidable leaf validity: `WTExpr inv leafOK o ↔ validWith leafb o = true ∧ ∀ a ∈
   lazyOperands o, inv a`; the only part of `WTExpr` that is not decided is the invertibility of the operands of the
   lazy inverses, kept as an explicit hypothesis;
@@ -307,6 +308,28 @@ theorem diagonalLeafb_iff (p : Params) (l : LeafS) :
 theorem diagonal_iff (p : Params) : allb (diagonalClauses p) = true ↔ diagonalOK p := by
   simp only [diagonalClauses, allb_cons, allb_nil, Bool.and_true, List.all_eq_true, diagonalLeafb_iff, diagonalOK]
 
+/-! ### dense einsum blocks -/
+
+/-- a dense leaf with a shared block array passes `Einsum.denseCheck` exactly when it is `denseOK`
+(`ListSem.denseCheck_iff`: the executable check is sound and complete); one with a block array per leaf is not
+constrained -/
+theorem dense_iff (p : Params) : allb (denseClauses p) = true ↔ listLeafOK .dense p := by
+  simp only [denseClauses, allb_cons, allb_nil, Bool.and_true, Bool.or_eq_true, Bool.not_eq_true', listLeafOK,
+    denseSharedb_eq, denseCheck_iff]
+  cases denseShared p <;> simp
+
+/-- the dense clause once the split of the subscripts is known: `Einsum.parseSubscripts` (`String.splitOn`) does not
+reduce in the Lean kernel, `Einsum.denseCheckTerms` does; `ListSem.parseSubscripts_readback` gives the split -/
+theorem leafOKb_dense_eq_terms (p : Params) (l r o : String) (hp : Einsum.parseSubscripts p.str = .ok (l, r, o)) :
+    leafOKb .dense p = (!Einsum.denseSharedb p || Einsum.denseCheckTerms l.toList r.toList o.toList p) := by
+  simp only [leafOKb, leafClauses, denseClauses, allb_cons, allb_nil, Bool.and_true, denseCheck_eq_terms p l r o hp]
+
+theorem leafReason_dense_eq_terms (p : Params) (l r o : String) (hp : Einsum.parseSubscripts p.str = .ok (l, r, o)) :
+    leafReason .dense p = if !Einsum.denseSharedb p || Einsum.denseCheckTerms l.toList r.toList o.toList p then none
+      else some ("dense:" ++ (Einsum.denseReasonTerms l.toList r.toList o.toList p).getD "") := by
+  simp only [leafReason, leafClauses, denseClauses, firstFail, denseCheck_eq_terms p l r o hp,
+    denseReason_eq_terms p l r o hp]
+
 /-! ### all the leaf classes -/
 
 /-- **the Boolean leaf check decides `listLeafOK`** -/
@@ -323,6 +346,7 @@ theorem leafOKb_iff (c : LeafCls) (p : Params) : leafOKb c p = true ↔ listLeaf
   case hwp => exact stokes_iff .hwp p
   case polarizer => exact stokes_iff .polarizer p
   case diagonal => exact diagonal_iff p
+  case dense => exact dense_iff p
   all_goals simp [leafClauses, allb, listLeafOK]
 
 /-- soundness -/
@@ -547,6 +571,9 @@ theorem adjLeafOKb_iff (c : LeafCls) (p : Params) : adjLeafOKb c p = true ↔ ad
   simp only [adjLeafOKb, adjLeafClauses, allb_append, allb_cons, allb_nil, Bool.and_true, Bool.and_eq_true, this,
     adjLeafOK, bne_iff_ne]
 
+theorem adjLeafOKb_eq (c : LeafCls) (p : Params) : adjLeafOKb c p = (leafOKb c p && c != .broadcastDiagonal) := by
+  simp only [adjLeafOKb, adjLeafClauses, leafOKb, allb_append, allb_cons, allb_nil, Bool.and_true]
+
 theorem adjLeafReason_none_iff (c : LeafCls) (p : Params) : adjLeafReason c p = none ↔ adjLeafOKb c p = true :=
   firstFail_none_iff _
 
@@ -557,7 +584,9 @@ theorem isDiagonalLeaf_iff (o : Op) : isDiagonalLeaf o = true ↔ ∃ u p, o = .
 
 mutual
 theorem tformb_iff : ∀ o : Op, tformb o = true ↔ TFormOK o
-  | .leaf _ c _ => by simp [tformb, TFormOK]
+  | .leaf _ c p => by
+    simp only [tformb, TFormOK, denseSharedb_eq]
+    by_cases h : c = .dense <;> simp [h]
   | .wrap _ k o => by simp only [tformb, TFormOK, ne_or_iff, isDiagonalLeaf_iff]
   | .comp _ ops => by simp only [tformb, TFormOK, tformListb_iff ops]
   | .cont _ _ _ ops => by simp only [tformb, TFormOK, tformListb_iff ops]
